@@ -120,13 +120,22 @@ def build(ctx, rnd, gens):
                 step["expect"] = "usage"
                 add(sel, [step], cls="usage-mixed" + flag, dot=dot, order=order)
         # a holder / contributor with a line break in it cannot be one notice: an invalid option value
-        for what in ("holders", "con"):
+        # an expression the parser stumbles over is a usage error like any other unparseable one
+        step = anncases.step_of(b1, rnd, names, base, must=False)
+        step["req"]["lic"] = ["()"]
+        step["expect"] = "usage"
+        add(good, [step], cls="usage-expression-parens", dot=dot)
+        # a holder that cannot be written as UTF-8 (an undecodable byte of the command line): refused, and no file emptied
+        step = anncases.step_of(b1, rnd, names, base, must=False)
+        step["req"]["holders"] = ["Jane \udcff Doe"]
+        step["expect"] = "fail"
+        add(good, [step], cls="holder-not-encodable", dot=dot)
+        for what, brk in (("holders", "\n"), ("con", "\n"), ("con", "\u2028"), ("holders", "\x0c")):
             step = anncases.step_of(b1, rnd, names, base, must=False)
-            step["req"][what] = ["Jane Doe\nand friends"]
-            # (a notice is built before any file is looked at: a usage error; a contributor line that does not read back
-            # is found per file: every file refused, exit status 1 - both leave the tree as it was)
-            step["expect"] = "usage" if what == "holders" else "fail"
-            add(good, [step], cls=("usage-" if what == "holders" else "") + "line-break-in-" + what, dot=dot)
+            step["req"][what] = ["Jane Doe" + brk + "and friends"]
+            # (any character that ends a line - also form feed, U+2028 - is refused before a file is looked at)
+            step["expect"] = "usage"
+            add(good, [step], cls="usage-line-break-in-" + what + "-" + repr(brk).strip("'"), dot=dot)
         # nothing requested at all
         step = anncases.step_of(b1, rnd, names, base, must=False)
         step["req"].update({"holders": [], "lic": [], "con": [], "years": [2024]})
